@@ -100,36 +100,21 @@ fn check_prep(p: &Prep, out: &Outcome<CObs>) -> Option<(String, String)> {
     if o.ke.iter().any(|k| *k < 0.0) || o.buffer < 0.0 {
         return Some((format!("{} negative-energy", head), ctx(format!("kinetic energies {:?}, buffer {}", o.ke, o.buffer))));
     }
-    // untouched indices keep their individual and molecule
-    let twins = p.reactants.iter().any(|r| p.pop.iter().enumerate().any(|(i, x)| i != *r && *x == p.pop[*r] && p.ke[i] == p.ke[*r]));
-    if twins {
-        // a reactant has an identical twin (same individual, same kinetic energy): which of the two is consumed is not
-        // observable; everything but one instance per reactant must still be there, unchanged
-        let mut after: Vec<(u32, f64, f64)> = pop.iter().zip(&o.ke).map(|(i, k)| (i.0, i.1, *k)).collect();
+    // every bystander (individual + its molecule record) is still there, unchanged and still aligned with its record. Where in the
+    // population the product is put and in which order the bystanders are left is not fixed by anything (an implementation
+    // may close the gap of a synthesis by moving the last molecule into it), so this is a multiset comparison of aligned
+    // (individual, kinetic energy, remembered solution) triples; with identical twins it is also not observable which twin reacted.
+    {
+        let mut after: Vec<(u32, f64, f64, u32)> = pop.iter().enumerate().map(|(j, i)| (i.0, i.1, o.ke[j], o.mol_best[j].0)).collect();
         for i in 0..p.pop.len() {
             if p.reactants.contains(&i) {
                 continue;
             }
-            match after.iter().position(|a| *a == (p.pop[i].0, p.pop[i].1, p.ke[i])) {
+            match after.iter().position(|a| *a == (p.pop[i].0, p.pop[i].1, p.ke[i], p.pop[i].0)) {
                 Some(k) => {
                     after.remove(k);
                 }
-                None => return Some((format!("{} untouched-molecule-changed", head), ctx(format!("a molecule like bystander {} ({:?}, kinetic energy {}) is missing: population {:?}, kinetic energies {:?}", i, p.pop[i], p.ke[i], pop, o.ke)))),
-            }
-        }
-    }
-    for i in 0..p.pop.len().min(pop.len()) {
-        if twins {
-            break;
-        }
-        if !p.reactants.contains(&i) {
-            // synthesis removes the second reactant, shifting later indices
-            let shift = if p.reaction == 3 && accepted && i > p.reactants[1] { 1 } else { 0 };
-            if i < shift {
-                continue;
-            }
-            if pop.get(i - shift) != Some(&(p.pop[i].0, p.pop[i].1)) || o.ke.get(i - shift) != Some(&p.ke[i]) || o.mol_best.get(i - shift).map(|b| b.0) != Some(p.pop[i].0) {
-                return Some((format!("{} untouched-molecule-changed", head), ctx(format!("individual/molecule {} changed: population {:?}, kinetic energies {:?}", i, pop, o.ke))));
+                None => return Some((format!("{} untouched-molecule-changed", head), ctx(format!("bystander {} ({:?}, kinetic energy {}) is no longer present together with its own molecule record: population {:?}, kinetic energies {:?}, remembered solutions {:?}", i, p.pop[i], p.ke[i], pop, o.ke, o.mol_best.iter().map(|b| b.0).collect::<Vec<_>>())))),
             }
         }
     }
